@@ -341,6 +341,8 @@ fn lane<T: ArrayElement + 'static>(f: &str) -> Box<dyn FnMut(&Array<T>) -> Resul
 fn run_modelled(st: &[V], name: &str, a: &[&str], ty: &str) -> Option<Out> {
     macro_rules! g { ($i:expr) => { match get(st, a[$i]) { Some(v) => v, None => return Some(skip()) } }; }
     macro_rules! gl { ($i:expr) => { match getl(st, a[$i]) { Some(v) => v, None => return Some(skip()) } }; }
+    // modelled since the store machine was extended; the calls live in `run_unmodelled` (shared with their `u.` spelling)
+    if MODELLED_LATER.contains(&name) { return run_unmodelled(st, name, a, ty); }
     Some(match name {
         // ---- constructors
         "new" => ctor_all!(ty, |T| Array::<T>::new(tags::<T>(us(a[0]), a[1].parse().unwrap()), ul(a[2]))),
@@ -465,6 +467,12 @@ fn run_modelled(st: &[V], name: &str, a: &[&str], ty: &str) -> Option<Out> {
 
 // ---------------------------------------------------------------- public operations outside the modelled set (monitor only)
 
+/// operations that joined the store machine later (names without prefix); the string operations joined as `s.<name>`
+const MODELLED_LATER: [&str; 6] = ["slice", "indices_at", "filter_map", "clip0", "clip1", "clip2"];
+/// strip the `u.` (monitor-only) / `s.` (string-array operation, modelled) prefix of a step name
+fn base_of(op: &str) -> &str { op.strip_prefix("u.").or_else(|| op.strip_prefix("s.")).unwrap_or(op) }
+/// a string-array operation (modelled `s.<name>`, or monitor-only `u.zfill`)
+fn is_str_op(op: &str) -> bool { let b = base_of(op); OPS_STR.contains(&op) || ((op.starts_with("u.") || op.starts_with("s.")) && (STR_UNARY.contains(&b) || STR_BINARY.contains(&b) || b == "compare")) }
 const STR_UNARY: [&str; 13] = ["capitalize", "lower", "upper", "swapcase", "str_len", "is_alpha", "is_alnum", "is_decimal", "is_numeric", "is_digit", "is_space", "is_lower", "is_upper"];
 const STR_BINARY: [&str; 20] = ["add", "join", "partition", "rpartition", "equal", "not_equal", "greater_equal", "less_equal", "greater", "less", "count",
     "starts_with", "ends_with", "find", "rfind", "index", "rindex", "strip", "lstrip", "rstrip"];
@@ -501,7 +509,7 @@ dual_fn!(str_ops_on, str_ops_on_r, String, |st, name, a, x| {
             if name == "split" { fin(ArrayStringManipulate::split(x, sep, ms)) } else { fin(x.rsplit(sep, ms)) }
         }
         "replace" => { let (o, n) = match (sarg(1), sarg(2)) { (Some(o), Some(n)) => (o, n), _ => return Some(skip()) }; fin(x.replace(o, n, ousz(a[3]))) }
-        "compare" => { let y = match sarg(1) { Some(y) => y, None => return Some(skip()) }; variant_run(AS_STRING, || fin(x.compare(y, a[2].to_string()))); fin(x.compare(y, a[2])) }
+        "compare" => { let y = match sarg(1) { Some(y) => y, None => return Some(skip()) }; let op = a[2].strip_prefix("o:").unwrap_or(a[2]); variant_run(AS_STRING, || fin(x.compare(y, op.to_string()))); fin(x.compare(y, op)) }
         _ => {
             if !STR_BINARY.contains(&name) { return None; }
             let y = match sarg(1) { Some(y) => y, None => return Some(skip()) };
@@ -750,7 +758,7 @@ fn run_step(st: &[V], step: &str, bad: &mut Vec<String>) -> Out {
     BAD.with(|b| b.borrow_mut().clear());
     TWIN.with(|t| t.borrow_mut().clear());
     IN_TWIN.with(|c| c.set(None));
-    let r = catch_unwind(AssertUnwindSafe(|| match name.strip_prefix("u.") { Some(n) => run_unmodelled(st, n, &a, ty), None => run_modelled(st, name, &a, ty) }));
+    let r = catch_unwind(AssertUnwindSafe(|| match name.strip_prefix("u.").or_else(|| name.strip_prefix("s.")) { Some(n) => run_unmodelled(st, n, &a, ty), None => run_modelled(st, name, &a, ty) }));
     IN_TWIN.with(|c| c.set(None));
     BAD.with(|b| bad.extend(b.borrow_mut().drain(..)));
     let twins: Vec<(&'static str, String)> = TWIN.with(|t| t.borrow_mut().drain(..).collect());
@@ -775,18 +783,18 @@ const FAITHFUL: [&str; 58] = ["new", "create", "single", "flat", "empty", "zeros
     "concatenate", "stack", "vstack", "hstack", "dstack", "column_stack", "row_stack", "flip", "flipud", "fliplr", "roll", "rot90", "delete", "insert", "append",
     "repeat", "trim_zeros", "filter_e", "filter_map_e"];
 /// modelled operations whose outcome class / shape depends on element VALUES: modelled only on value-faithful inputs, `u.` otherwise
-const VALDEP: [&str; 9] = ["trim_zeros", "filter", "unique", "divide", "true_divide", "fmod", "remainder", "mod", "floor_divide"];
+const VALDEP: [&str; 10] = ["filter_map", "trim_zeros", "filter", "unique", "divide", "true_divide", "fmod", "remainder", "mod", "floor_divide"];
 
 const CTORS: [&str; 16] = ["new", "create", "single", "flat", "empty", "zeros", "ones", "full", "rand", "eye", "identity", "tri", "arange", "linspace", "u.logspace", "u.geomspace"];
 const OPS_ALL: [&str; 56] = ["transpose", "moveaxis", "rollaxis", "swapaxes", "expand_dims", "squeeze", "reshape", "resize", "ravel", "atleast", "cycle_take",
     "apply_along_axis", "broadcast_to", "broadcast", "broadcast_arrays", "zip", "array_split", "split", "split_axis", "hsplit", "vsplit", "dsplit", "member",
     "concatenate", "stack", "vstack", "hstack", "dstack", "column_stack", "row_stack", "flip", "flipud", "fliplr", "roll", "rot90", "delete", "insert", "append",
     "repeat", "trim_zeros", "map", "map_e", "filter_e", "filter_map_e", "filter", "count_nonzero", "argmax", "argmin", "sort", "argsort", "unique",
-    "u.slice", "u.indices_at", "u.insert_axis", "u.for_each", "u.filter_map"];
-const OPS_NUM_EXTRA: [&str; 17] = ["zeros_like", "ones_like", "full_like", "diag", "diagflat", "tril", "triu", "vander", "clip", "u.clip0", "u.clip1", "u.clip2", "round", "u.modf",
+    "slice", "indices_at", "u.insert_axis", "u.for_each", "filter_map"];
+const OPS_NUM_EXTRA: [&str; 17] = ["zeros_like", "ones_like", "full_like", "diag", "diagflat", "tril", "triu", "vander", "clip", "clip0", "clip1", "clip2", "round", "u.modf",
     "u.divmod", "u.convolve", "u.linspace_a"];
 const OPS_OPS_EXTRA: [&str; 16] = ["vdot", "outer", "inner", "matmul", "dot", "op_neg", "u.det", "u.qr", "u.eigvals", "u.eig", "u.solve", "u.norm", "u.diff", "u.ediff1d", "u.unwrap_phase", "u.fold"];
-const OPS_STR: [&str; 10] = ["u.zfill", "u.translate", "u.splitlines", "u.multiply", "u.center", "u.ljust", "u.rjust", "u.split", "u.rsplit", "u.replace"];
+const OPS_STR: [&str; 10] = ["u.zfill", "s.translate", "s.splitlines", "s.multiply", "s.center", "s.ljust", "s.rjust", "s.split", "s.rsplit", "s.replace"];
 
 /// robustness streams part 2: steps through the std traits of `Array` (`u.` = outside the modelled set: C01 monitor + native expectation)
 const OPS_STD: [&str; 41] = ["u.it_empty", "u.it_once", "u.it_range", "u.it_range_filter", "u.it_unbounded", "u.it_from_fn", "u.it_huge_hint", "u.it_repeat_take",
@@ -891,7 +899,7 @@ impl G {
     /// emit one step of operation `op` (plus helper constructor steps); false = not applicable now
     fn emit(&mut self, op: &str) -> bool {
         if OPS_STD.contains(&op) { return self.emit_std(op); }
-        let base = op.strip_prefix("u.").unwrap_or(op).to_string();
+        let base = base_of(op).to_string();
         let b = base.as_str();
         let ty = self.ty;
         // ----- constructors
@@ -921,7 +929,7 @@ impl G {
             return true;
         }
         // ----- operand
-        let class: &dyn Fn(&str) -> bool = if OPS_STR.contains(&op) || (op.starts_with("u.") && (STR_UNARY.contains(&b) || STR_BINARY.contains(&b) || b == "compare")) { &|t| t == "str" }
+        let class: &dyn Fn(&str) -> bool = if is_str_op(op) { &|t| t == "str" }
             else if OPS_ALL.contains(&op) { &|_| true }
             else if OPS_OPS_EXTRA.contains(&op) || FOLD_OPS.contains(&b) || SCAN_OPS.contains(&b) || UNARY_OPS.contains(&b) || BIN_OPS.contains(&b) || (b.starts_with("op_") && !b.starts_with("op_bit") && b != "op_not") { &is_ops }
             else if b.starts_with("op_bit") { &is_int }
@@ -955,7 +963,7 @@ impl G {
         // value-dependent modelled operations are modelled only on value-faithful inputs
         let mut name = op.to_string();
         let step = match b {
-            "split" | "rsplit" if op.starts_with("u.") => { let sep = if self.coin(40) { "none".to_string() } else { let ps = self.compat(&s); format!("@{}", self.partner(i, ps)) };
+            "split" | "rsplit" if op.starts_with("s.") => { let sep = if self.coin(40) { "none".to_string() } else { let ps = self.compat(&s); format!("@{}", self.partner(i, ps)) };
                 format!("@{}|{}|{}", i, sep, *self.rng.pick(&["none", "0", "1", "2"])) }
             "transpose" => { let ax = if self.coin(35) { "none".to_string() } else { let p = self.rng.perm(r); let mut v: Vec<isize> = p.iter().map(|&x| if self.rng.below(4) == 0 { x as isize - r as isize } else { x as isize }).collect();
                     if self.coin(6) && r > 0 { v[0] = r as isize; } show_list(&v) }; format!("@{}|{}", i, ax) }
@@ -1045,7 +1053,7 @@ impl G {
             "multiply" if t == "str" => { let ps = self.compat(&s); let nn: usize = ps.iter().product(); let j = self.push(format!("new|{}|{}|{}|#usize", nn, 0, show_list(&ps))); format!("@{}|@{}", i, j) }
             "center" | "ljust" | "rjust" => { let ps = self.compat(&s); let nn: usize = ps.iter().product(); let j = self.push(format!("new|{}|{}|{}|#usize", nn, 2, show_list(&ps))); format!("@{}|@{}|{}", i, j, *self.rng.pick(&["none", "*", "-"])) }
             "replace" => { let p1 = self.compat(&s); let p2 = self.compat(&s); let j = self.partner(i, p1); let k = self.partner(i, p2); format!("@{}|@{}|@{}|{}", i, j, k, *self.rng.pick(&["none", "0", "1", "2"])) }
-            "compare" => { let ps = self.compat(&s); let j = self.partner(i, ps); format!("@{}|@{}|{}", i, j, *self.rng.pick(&["==", "!=", ">", "<", ">=", "<=", "equals", "bogus"])) }
+            "compare" => { let ps = self.compat(&s); let j = self.partner(i, ps); format!("@{}|@{}|{}", i, j, *self.rng.pick(&["o:==", "!=", ">", "<", ">=", "<=", "equals", "bogus", "o:==", "Not_Equals", "GREATER_EQUAL", "less_equal", "less"])) }
             _ => {
                 if FOLD_OPS.contains(&b) || EXTREME_OPS.contains(&b) || SCAN_OPS.contains(&b) { format!("@{}|{}", i, self.oaxis(r)) }
                 else if UNARY_NUM.contains(&b) || UNARY_OPS.contains(&b) || UNARY_FLT.contains(&b) || STR_UNARY.contains(&b) { format!("@{}", i) }
@@ -1195,20 +1203,20 @@ fn all_ops() -> Vec<String> {
     v.extend(OPS_OPS_EXTRA.iter().map(|s| s.to_string()));
     for l in [&FOLD_OPS[..], &EXTREME_OPS[..], &SCAN_OPS[..], &UNARY_NUM[..], &UNARY_OPS[..], &UNARY_FLT[..], &BIN_OPS[..], &BIN_FLT[..]] { v.extend(l.iter().map(|s| s.to_string())); }
     v.extend(BIN_NUM.iter().filter(|s| **s != "_").map(|s| s.to_string()));
-    v.extend(["ldexp", "unpack_bits", "pack_bits", "u.frexp", "around", "u.geomspace_a", "u.logspace_a", "u.compare"].iter().map(|s| s.to_string()));
+    v.extend(["ldexp", "unpack_bits", "pack_bits", "u.frexp", "around", "u.geomspace_a", "u.logspace_a", "s.compare"].iter().map(|s| s.to_string()));
     for o in ["add", "sub", "mul", "div", "rem", "bitand", "bitor", "bitxor"] { for sfx in ["", "_s", "_assign", "_assign_s"] { v.push(format!("op_{}{}", o, sfx)); } }
     v.push("op_not".into());
     v.extend(OPS_STR.iter().map(|s| s.to_string()));
-    v.extend(STR_UNARY.iter().map(|s| format!("u.{}", s)));
-    v.extend(STR_BINARY.iter().map(|s| format!("u.{}", s)));
+    v.extend(STR_UNARY.iter().map(|s| format!("s.{}", s)));
+    v.extend(STR_BINARY.iter().map(|s| format!("s.{}", s)));
     v
 }
 /// element types an operation applies to
 fn types_for(op: &str) -> Vec<&'static str> {
-    let b = op.strip_prefix("u.").unwrap_or(op);
+    let b = base_of(op);
     let all9 = ["i32", "i64", "u8", "usize", "f64", "bool", "str", "t2", "isize", "i8"];
     if OPS_STD.contains(&op) { return all9.to_vec(); }
-    if OPS_STR.contains(&op) || (op.starts_with("u.") && (STR_UNARY.contains(&b) || b == "compare" || (STR_BINARY.contains(&b)))) { return vec!["str"]; }
+    if is_str_op(op) { return vec!["str"]; }
     if ["new", "create", "single", "flat", "empty"].contains(&op) || OPS_ALL.contains(&op) { return all9.to_vec(); }
     if b == "unpack_bits" || b == "pack_bits" { return vec!["u8"]; }
     if b == "op_not" { return vec!["bool"]; }
@@ -1319,11 +1327,11 @@ fn gen_all(tier: &str, seed: u64, out: &mut dyn FnMut(String)) {
     {
         let heavy = ["vdot", "outer", "inner", "matmul", "dot", "vander", "u.convolve", "u.linspace_a", "u.geomspace_a", "u.logspace_a", "u.det", "u.qr", "u.eigvals", "u.eig", "u.solve", "u.norm"];
         let cheap = ["reshape", "ravel", "flip", "roll", "op_bitand", "op_bitxor_assign", "op_bitor_s", "broadcast_to", "atleast", "expand_dims", "squeeze", "repeat", "argmax", "count_nonzero",
-            "transpose", "resize", "cycle_take", "map", "op_add", "negative", "max", "sum", "cumsum", "array_split", "concatenate", "sort", "delete", "append", "u.slice", "op_not"];
+            "transpose", "resize", "cycle_take", "map", "op_add", "negative", "max", "sum", "cumsum", "array_split", "concatenate", "sort", "delete", "append", "slice", "op_not"];
         let medium: Vec<Vec<usize>> = vec![vec![300], vec![17, 16], vec![5, 5, 5, 5], vec![1, 16, 1, 17], vec![9, 9], vec![7, 1, 9], vec![3, 2, 8], vec![16, 17], vec![2, 8, 3], vec![8, 2, 3], vec![2, 3, 4, 5, 2], vec![64], vec![100]];
         let large: Vec<Vec<usize>> = vec![vec![1030], vec![40, 30], vec![4100], vec![70, 70]];
         for (oi, op) in all_ops().iter().enumerate() {
-            if CTORS.contains(&op.as_str()) || heavy.contains(&op.as_str()) || op.starts_with("u.") && (STR_UNARY.contains(&&op[2..]) || STR_BINARY.contains(&&op[2..])) || OPS_STR.contains(&op.as_str()) { continue; }
+            if CTORS.contains(&op.as_str()) || heavy.contains(&op.as_str()) || is_str_op(op) { continue; }
             let tys = types_for(op);
             for (si, shape) in medium.iter().enumerate() {
                 let picks: Vec<&str> = if thorough { let c: Vec<&str> = tys.iter().copied().filter(|t| ["u8", "i8", "bool", "i64", "f64"].contains(t)).collect(); (0..c.len().min(2)).map(|k| c[(oi + si + k) % c.len()]).collect() }
@@ -1683,6 +1691,7 @@ fn exec(_op: &str, args: &[&str], expected: &str) -> Option<Verdict> {
         if std::env::var_os("C01_STATS").is_some() { eprintln!("{text}"); }
         return Some(if v == 0 || r == 0 { Verdict::Mismatch { observed: text, detail: "the native shape oracle was not validated against the model in this run".into() } } else { Verdict::Match(text) });
     }
+    if std::env::var_os("C01_OPEN").is_some() { if let Some(r) = &open { eprintln!("open: {r}"); } }
     Some(match open { Some(_) => Verdict::Open(observed), None => Verdict::Match(observed) })
 }
 
